@@ -6,6 +6,7 @@ package main
 // the protoreflect interface on view(x) (the struct fields themselves, so getters and fields agree by construction).
 
 import (
+	"regexp"
 	"fmt"
 	"go/ast"
 	"go/types"
@@ -396,6 +397,8 @@ func (e *reflEngine) presentTerm(st *State, f reflField, snap map[string]Val) st
 	return "true"
 }
 
+var freshRef = regexp.MustCompile(`^\(- [0-9]+\)$`)
+
 type reflOpts struct {
 	contract bool // C08: per-operation contracts
 	nilrecv  bool // C09: nil receiver variants of the read operations
@@ -537,7 +540,9 @@ func reflUnit(prog *Program, ms *MsgSchema, method, full string, o reflOpts, nil
 	if o.frame && readOnlyMethods[method] {
 		n := 0
 		for _, s := range c.stores {
-			if strings.HasPrefix(s.Key, "fld:fastReflection_"+ms.Name+".") || strings.HasPrefix(s.Key, "fld:"+ms.Name+".") {
+			// a store to a field of the message — or of anything reachable from it (oneof wrappers, sub-messages): every
+			// struct store whose target is not an object allocated by this call
+			if strings.HasPrefix(s.Key, "fld:") && !freshRef.MatchString(s.Ref) {
 				n++
 				c.addObl(Obl{Name: fmt.Sprintf("%s/frame[message not written]#%d", u.Name, n), Kind: "frame", Guard: s.Guard, Goal: "false", Pos: s.Pos, Text: method + " performs no store to a field of the message (" + s.Key + ")"})
 			}
